@@ -26,12 +26,39 @@ func (w *World) moduleType() *types.Named {
 	return impls[0]
 }
 
-func (w *World) beginBlockFn() *ssa.Function {
+// declaredBeginBlockFn is the module's BeginBlock method (appmodule.HasBeginBlocker).
+func (w *World) declaredBeginBlockFn() *ssa.Function {
 	f := w.methodOf(w.moduleType(), "BeginBlock")
 	if f == nil {
 		fatalf("module BeginBlock has no body")
 	}
 	return f
+}
+
+// beginBlockFn is the module's per-block entry that reaches the keeper's auction processing: BeginBlock, or — when
+// BeginBlock does not reach it but EndBlock does — EndBlock, so that rules about what block processing does keep
+// analysing it wherever in the block it is run (that it runs at the beginning is BB-WIRE's obligation alone).
+func (w *World) beginBlockFn() *ssa.Function {
+	bb := w.declaredBeginBlockFn()
+	readsAuctions := func(root *ssa.Function) bool {
+		for fn := range w.reachableFrom(root) {
+			for _, b := range fn.Blocks {
+				for _, in := range b.Instrs {
+					if e := w.EffectOf(in); e != nil && e.Kind == EffStoreRead && e.Coll == "Auction" {
+						return true
+					}
+				}
+			}
+		}
+		return false
+	}
+	if readsAuctions(bb) {
+		return bb
+	}
+	if eb := w.methodOf(w.moduleType(), "EndBlock"); eb != nil && readsAuctions(eb) {
+		return eb
+	}
+	return bb
 }
 
 // msgServerMethods returns the keeper's implementation of each types.MsgServer method.
